@@ -51,7 +51,12 @@ def term1c(E, v):
     if key not in cache:
         fs = v.snapshot()
         i = z3.Int("di!bound")        # fixed bound-variable name: alpha-equivalent row terms are identical terms
-        cache[key] = z3.Lambda([i], fs.get(i))
+        body = fs.get(i)
+        if z3.is_int(body):
+            body = z3.ToReal(body)     # vectors of numbers: an integer vector is the same vector of reals (numpy.dot promotes)
+        elif z3.is_bool(body):
+            body = z3.If(body, z3.RealVal(1), z3.RealVal(0))
+        cache[key] = z3.Lambda([i], body)
     return cache[key]
 
 
@@ -563,13 +568,21 @@ def install(R):
             raise Unsupported("corrcoef of %r" % (x,))
         d = x.shape[0] if rowvar else x.shape[1]
         if E.branch(z(d) == 1):
-            return E.real("corr_scalar")          # numpy returns a 0-d scalar for a single variable
-        return NdArr.fresh("corr", (d, d), "real")
+            from .values import NanReal
+            return NanReal(E.real("corr_scalar"), z3.Bool(fresh_name("corr_scalar_nan")))      # a 0-d scalar for a single variable; NaN if it is constant
+        # any entry may be NaN: the correlation with a constant (zero-variance) column is 0/0
+        return NdArr.fresh("corr", (d, d), "real", True)
 
     @reg("numpy.atleast_2d")
     def _atleast_2d(E, x):
         if isinstance(x, NdArr) and x.ndim == 2:
             return x
+        from .values import NanReal
+        if isinstance(x, NanReal):
+            a = NdArr.fresh("a2d", (1, 1), "real", True)
+            a.set((0, 0), x.val, nanval=x.isnan)
+            a.cell.writes = 0
+            return a
         if is_num_like(x):
             a = NdArr.fresh("a2d", (1, 1), "real")
             a.set((0, 0), x)
